@@ -16,13 +16,16 @@ import (
 
 // Case is one program of the alphabet (also part of the replay format).
 type Case struct {
-	Op      string `json:"op"`       // create save_new save_existing update updates_struct updates_map delete find first
-	Shape   string `json:"shape"`    // ptr_struct ptr_slice slice_val slice_ptr ptr_slice_ptr ptr_array | val_struct val_array (non-addressable)
-	Len     int    `json:"len"`      // number of in-memory records (find/first: number of rows matched)
-	Kids    string `json:"kids"`     // none pet toys both (find/first: both = Preload Pet and Toys)
-	PtrKids bool   `json:"ptr_kids"` // root type OwnerP (children held by pointer)
-	Mode    string `json:"mode"`     // hooks skiphooks column
-	Outer   string `json:"outer"`    // implicit (gorm's default transaction) | begin (caller's transaction)
+	Op      string `json:"op"`               // create save_new save_existing update updates_struct updates_map delete find first
+	Shape   string `json:"shape"`            // ptr_struct ptr_slice slice_val slice_ptr ptr_slice_ptr ptr_array | val_struct val_array (non-addressable)
+	Len     int    `json:"len"`              // number of in-memory records (find/first: number of rows matched)
+	Kids    string `json:"kids"`             // none pet toys both (find/first: both = Preload Pet and Toys)
+	PtrKids bool   `json:"ptr_kids"`         // root type OwnerP (children held by pointer)
+	Mode    string `json:"mode"`             // hooks skiphooks column
+	Outer   string `json:"outer"`            // implicit (gorm's default transaction) | begin (caller's transaction)
+	Batch   int    `json:"batch,omitempty"`  // batch size of create_batches (CreateInBatches) / create_batchsize (Session{CreateBatchSize}.Create)
+	Graph   string `json:"graph,omitempty"`  // Node graph with shared records (root type Node): chain triangle diamond fan3 two_roots cycle
+	Preset  bool   `json:"preset,omitempty"` // graph records carry preset (new) primary keys
 }
 
 // Replay is the replay file: the program plus the choice list (which hook
@@ -39,7 +42,29 @@ func (c Case) String() string {
 	if c.PtrKids {
 		t = "OwnerP"
 	}
-	return fmt.Sprintf("%s %s<%s> len=%d kids=%s mode=%s outer=%s", c.Op, c.Shape, t, c.Len, c.Kids, c.Mode, c.Outer)
+	if c.Graph != "" {
+		t = "Node"
+	}
+	s := fmt.Sprintf("%s %s<%s> len=%d kids=%s mode=%s outer=%s", c.Op, c.Shape, t, c.Len, c.Kids, c.Mode, c.Outer)
+	if c.Batch > 0 {
+		s += fmt.Sprintf(" batch=%d", c.Batch)
+	}
+	if c.Graph != "" {
+		s += fmt.Sprintf(" graph=%s preset_ids=%v", c.Graph, c.Preset)
+	}
+	return s
+}
+
+func (c Case) isCreate() bool {
+	return c.Op == "create" || c.Op == "save_new" || c.Op == "create_batches" || c.Op == "create_batchsize"
+}
+
+// rootTable is the table of the argument's records.
+func (c Case) rootTable() string {
+	if c.Graph != "" {
+		return "nodes"
+	}
+	return "owners"
 }
 
 func (c Case) key() string { return c.String() }
@@ -73,7 +98,7 @@ func fillRoot(c Case, rv reflect.Value, i int) {
 	}
 	existingKids := false
 	switch c.Op {
-	case "create", "save_new":
+	case "create", "save_new", "create_batches", "create_batchsize":
 		set(0, fmt.Sprintf("r%d", i), "c")
 	case "save_existing":
 		set(uint(i+1), fmt.Sprintf("r%d", i), "s")
@@ -121,6 +146,9 @@ func fillRoot(c Case, rv reflect.Value, i int) {
 
 // buildArg builds the argument value of the given shape.
 func buildArg(c Case) interface{} {
+	if c.Graph != "" {
+		return buildGraph(c)
+	}
 	T := c.rootT()
 	n := c.Len
 	isFind := !c.isWrite()
@@ -174,18 +202,126 @@ func buildArg(c Case) interface{} {
 	panic("unknown shape " + c.Shape)
 }
 
+// buildGraph builds a Node graph in which records are shared (the same
+// pointer is reachable over several paths).
+func buildGraph(c Case) interface{} {
+	next := uint(101)
+	mk := func(name string) *Node {
+		n := &Node{Name: name, Note: "g"}
+		if c.Preset {
+			n.ID = next
+			next++
+		}
+		return n
+	}
+	root, a, b, x := mk("root"), mk("a"), mk("b"), mk("x")
+	switch c.Graph {
+	case "chain": // no sharing: baseline
+		root.Peers = []*Node{a}
+		a.Peers = []*Node{x}
+	case "triangle":
+		root.Peers = []*Node{a, b}
+		a.Peers = []*Node{b}
+	case "diamond":
+		root.Peers = []*Node{a, b}
+		a.Peers = []*Node{x}
+		b.Peers = []*Node{x}
+	case "fan3":
+		root.Peers = []*Node{a, b, x}
+		a.Peers = []*Node{x}
+		b.Peers = []*Node{x}
+	case "cycle":
+		root.Peers = []*Node{a}
+		a.Peers = []*Node{root}
+	case "two_roots":
+		r1 := mk("root1")
+		root.Peers = []*Node{x}
+		r1.Peers = []*Node{x}
+		s := []*Node{root, r1}
+		return &s
+	case "two_roots_tri":
+		r1 := mk("root1")
+		root.Peers = []*Node{a, x}
+		r1.Peers = []*Node{x}
+		a.Peers = []*Node{x}
+		s := []*Node{root, r1}
+		return &s
+	default:
+		panic("unknown graph " + c.Graph)
+	}
+	return root
+}
+
+// walkNodes lists the records and edges of a Node graph.
+func walkNodes(arg interface{}) (recs []record, edges [][2]*Node) {
+	var roots []*Node
+	switch v := arg.(type) {
+	case *Node:
+		roots = []*Node{v}
+	case *[]*Node:
+		roots = *v
+	}
+	seen := map[*Node]bool{}
+	var visit func(n *Node, root int)
+	visit = func(n *Node, root int) {
+		if n == nil || seen[n] {
+			return
+		}
+		seen[n] = true
+		recs = append(recs, record{Ident: "node:" + n.Name, Table: "nodes", PTable: "nodes:nested", Addr: reflect.ValueOf(n).Pointer(), ID: n.ID, Name: n.Name, Root: root})
+		for _, p := range n.Peers {
+			edges = append(edges, [2]*Node{n, p})
+		}
+		for _, p := range n.Peers {
+			visit(p, root)
+		}
+	}
+	// roots first, so that a root that is also somebody's peer keeps its root identity
+	for i, r := range roots {
+		if r != nil && !seen[r] {
+			seen[r] = true
+			recs = append(recs, record{Ident: fmt.Sprintf("[%d]", i), Table: "nodes", PTable: "nodes", Addr: reflect.ValueOf(r).Pointer(), ID: r.ID, Name: r.Name, Root: i})
+		}
+	}
+	for i, r := range roots {
+		if r == nil {
+			continue
+		}
+		for _, p := range r.Peers {
+			edges = append(edges, [2]*Node{r, p})
+		}
+		for _, p := range r.Peers {
+			visit(p, i)
+		}
+	}
+	return
+}
+
 // record is one in-memory record of the argument (root or child).
 type record struct {
-	Ident string // "[i]", "[i].Pet", "[i].Toys[j]"
-	Table string
-	Addr  uintptr
-	ID    uint
-	Name  string
-	Root  int
+	Ident  string // "[i]", "[i].Pet", "[i].Toys[j]"
+	Table  string
+	Addr   uintptr
+	ID     uint
+	Name   string
+	Root   int
+	PTable string // phase table (see hookEv.PTable); "" = Table
+}
+
+func (r record) ptable() string {
+	if r.PTable != "" {
+		return r.PTable
+	}
+	return r.Table
 }
 
 // walkArg lists the in-memory records reachable from the argument.
 func walkArg(arg interface{}) (recs []record) {
+	switch arg.(type) {
+	case *Node, *[]*Node:
+		recs, _ = walkNodes(arg)
+		return
+	}
 	rv := reflect.ValueOf(arg)
 	for rv.Kind() == reflect.Ptr {
 		if rv.IsNil() {
@@ -252,8 +388,9 @@ type Obs struct {
 	Events    []recsqlite.Event
 	Pre, Post map[string][]string
 	Leaks     string
-	Before    []record // in-memory records before the operation
-	After     []record // … and after it
+	Before    []record   // in-memory records before the operation
+	After     []record   // … and after it
+	Edges     [][2]*Node // Node graphs: (from, to) after the operation
 	DBPool    gorm.ConnPool
 	OuterPool gorm.ConnPool
 	Rows      int64
@@ -377,6 +514,10 @@ func (w *worker) run(c Case, x *mc.Exec) *Obs {
 		switch c.Op {
 		case "create":
 			res = db.Create(arg)
+		case "create_batches":
+			res = db.CreateInBatches(arg, c.Batch)
+		case "create_batchsize":
+			res = db.Session(&gorm.Session{CreateBatchSize: c.Batch}).Create(arg)
 		case "save_new", "save_existing":
 			res = db.Save(arg)
 		case "update":
@@ -435,22 +576,29 @@ func (w *worker) run(c Case, x *mc.Exec) *Obs {
 		o.Post = snapshot(e)
 	}
 	o.After = walkArg(arg)
+	if c.Graph != "" {
+		_, o.Edges = walkNodes(arg)
+	}
 	o.Log = st.log
 	o.Errs = st.errs
 	// resolve record identities
 	byAddr := map[uintptr]string{}
+	byIdent := map[string]record{}
 	for _, r := range o.Before {
 		if r.Addr != 0 {
 			byAddr[r.Addr] = r.Ident
+			byIdent[r.Ident] = r
 		}
 	}
 	for _, r := range o.After {
 		if r.Addr != 0 {
 			byAddr[r.Addr] = r.Ident
+			byIdent[r.Ident] = r
 		}
 	}
 	for i := range o.Log {
 		ev := &o.Log[i]
+		ev.PTable = ev.Table
 		if !c.isWrite() && ev.Table != "owners" {
 			// preloaded children are loaded into temporary values and copied
 			// into their parents: identity = primary key
@@ -459,6 +607,10 @@ func (w *worker) run(c Case, x *mc.Exec) *Obs {
 		}
 		if id, ok := byAddr[ev.Addr]; ok {
 			ev.Ident = id
+			ev.PTable = byIdent[id].ptable()
+			if c.Batch > 0 {
+				ev.Batch = byIdent[id].Root / c.Batch
+			}
 		} else {
 			ev.Ident = "?"
 		}
